@@ -433,6 +433,69 @@ func enumC02(env *engine.Env, yield func(any) bool) {
 			return
 		}
 	}
+	if env.Thorough() {
+		// every pair of extras together
+		for i, a := range extras[:9] {
+			for _, b := range extras[i+1 : 9] {
+				c := baseMeta()
+				a(&c)
+				b(&c)
+				if !emit("extras2", c) {
+					return
+				}
+			}
+		}
+		// every architecture on a non-linux platform (deb, rpm and ipk take one), with and without the format override
+		for _, a := range c02Arches {
+			for _, plat := range []string{"darwin", "freebsd"} {
+				c := baseMeta()
+				c.Arch, c.Platform = a, plat
+				for _, f := range []string{"deb", "rpm", "ipk"} {
+					if !yield(C02Case{Part: "arch-platform", Format: f, Cfg: c}) {
+						return
+					}
+					co := c
+					co.FormatArch = "customarch"
+					if !yield(C02Case{Part: "arch-platform", Format: f, Cfg: co}) {
+						return
+					}
+				}
+			}
+		}
+		// relation lists with blank-expanding items: every pair of kinds
+		for _, variant := range []string{"plain", "versioned", "twice"} {
+			for i, k1 := range model.RelKinds {
+				for _, k2 := range model.RelKinds[i+1:] {
+					c := baseMeta()
+					c.RelBlanks = true
+					c.Rel = map[string][]model.RelItem{k1: relItems(k1, variant), k2: relItems(k2, variant)}
+					if !emit("rel2-blanks", c) {
+						return
+					}
+				}
+			}
+		}
+		// every description shape with every scalar deviation and with all relations
+		for _, dsc := range c02Descriptions() {
+			for _, sf := range c02Scalars {
+				c := baseMeta()
+				c.Description = dsc
+				sf.set(&c, c02Values[1])
+				if !emit("description-scalar", c) {
+					return
+				}
+			}
+			c := baseMeta()
+			c.Description = dsc
+			c.Rel = map[string][]model.RelItem{}
+			for _, k := range model.RelKinds {
+				c.Rel[k] = relItems(k, "versioned")
+			}
+			if !emit("description-rel8", c) {
+				return
+			}
+		}
+	}
 	call := baseMeta()
 	for _, ex := range extras[:9] {
 		ex(&call)
